@@ -404,6 +404,7 @@ Definition query_spec (F : file) (o : op) : answer :=
       | None => AErr EParse
       end
   | RefetchDwarf => ADone
+  | DIEAtOutside _ _ => AErr EDwarf
   | CUAtFailing _ e _ => AErr e
   end.
 
@@ -637,6 +638,11 @@ Definition valid_op (F : file) (o : op) : bool :=
   | EGetTag n => has_dyn F && (0 <=? n)
   | ESectionTyped n _ => in_table n (f_shdrs F)
   | RefetchDwarf => true
+  | DIEAtOutside u o =>
+      match unit_at F u with
+      | Some ud => (o <? ud_die_off ud) || (ud_off ud + uh_size (ud_hdr ud) <=? o)
+      | None => false
+      end
   | CUAtFailing off _ _ => negb (has_unit F off)
   end.
 
